@@ -754,6 +754,7 @@ func (p *Parser) parseMapExpression() (Node, error) {
 
 	// Parse the map key-value pairs
 	items := make(map[Node]Node)
+	var order []Node
 
 	// Check if there are any items
 	if p.tokenIndex < len(p.tokens) &&
@@ -781,8 +782,9 @@ func (p *Parser) parseMapExpression() (Node, error) {
 				return nil, err
 			}
 
-			// Add key-value pair to map
+			// Add key-value pair to map, remembering the source order
 			items[keyExpr] = valueExpr
+			order = append(order, keyExpr)
 
 			// Check for comma separator between items
 			if p.tokenIndex < len(p.tokens) &&
@@ -812,6 +814,7 @@ func (p *Parser) parseMapExpression() (Node, error) {
 			line:     line,
 		},
 		items: items,
+		order: order,
 	}, nil
 }
 
